@@ -319,6 +319,24 @@ def hunt_rules(chk, repo):
         else:
             chk.violation("C14.domain", md, K.short(md.node.body[-1], 60), f"the normalisation of Domain.validation(): {', '.join(sorted(conf))}",
                           f"{cname}.match_domain compares the Host header without `{miss[0]}` while the configured domain went through it: `Host: WWW.Example.COM`, `Host: example.com.` or `Host: example.com:80` name the same authority but skip the domain sub-application (and its middlewares) and are dispatched by the parent")
+    # ---- C14.static405: a static resource reports `path matched, method missing` only for a path that is under its prefix after normalisation --
+    sr_ = repo.func(MOD, "StaticResource.resolve")
+    n405 = 0
+    for r in [r for r in ast.walk(sr_.node) if isinstance(r, ast.Return) and isinstance(r.value, ast.Tuple) and len(r.value.elts) == 2]:
+        first, second = r.value.elts
+        if not (isinstance(first, ast.Constant) and first.value is None):
+            continue
+        if isinstance(second, ast.Call) and norm.raw(second) == "set()":
+            continue
+        n405 += 1
+        cl = PC.pc(r, raw=True)
+        if any(any("norm_path" in l.text or "normpath" in l.text for l in c) for c in cl):
+            chk.ok("C14.static405", r, "the `method not allowed here` answer of a static resource is given only after the prefix test on the normalised path")
+        else:
+            chk.violation("C14.static405", r, K.short(r), "after `if not norm_path.startswith(prefix + '/') and norm_path != prefix: return None, set()`",
+                          "StaticResource.resolve() reports its allowed methods before it has checked that the normalised path is under the static prefix (the index only guarantees a textual prefix): `POST /static/../x` is answered 405 with `Allow: GET,HEAD` instead of 404, and the Allow set of another resource that matches the path but not the method is polluted with GET and HEAD",
+                          path_condition=norm.fmt_cnf(cl)[:300])
+    chk.expect_count("C14.static405", n405, 1, "`path matched, method missing` returns of StaticResource.resolve")
     # ---- C14.routedef: every method RouteDef accepts can be registered -------------------------------------------------------------------
     RD = "aiohttp/web_routedef.py"
     rg_ = repo.func(RD, "RouteDef.register")
